@@ -263,8 +263,9 @@ def make_blocks(spec):
         if mixed:
             # blocks of differing dtype, as produced by real + complex
             # addition: the first block real, later ones drawn
-            dtype = "float64" if nblk == 0 or rng.integers(0, 2) else \
-                "complex128"
+            dtype = ("float64", "float32")[int(rng.integers(0, 2))] \
+                if nblk == 0 else ("float64", "complex128", "float32",
+                                   "complex128")[int(rng.integers(0, 4))]
         if kind == "int":
             b = rng.integers(-4, 5, size=shape).astype("float64")
             if "complex" in dtype:
@@ -399,6 +400,8 @@ def contraction_pairs(
     dtype=None,
     same_dtype=True,
     max_size=3,
+    ncon_choices=None,
+    max_charges=3,
 ):
     """Specs (a, b) with matching contracted legs and the axes lists.
 
@@ -411,6 +414,8 @@ def contraction_pairs(
     if symm == "Z4":
         ferm = False
     ncon = draw(st.sampled_from([0, 1, 1, 1, 1, 2, 2, 2, 3, 3, 4]))
+    if ncon_choices is not None:
+        ncon = draw(st.sampled_from(list(ncon_choices)))
     ncon = max(min_con, min(ncon, max_ndim))
     nda = draw(st.integers(ncon, max_ndim))
     ndb = draw(st.integers(ncon, max_ndim))
@@ -419,14 +424,17 @@ def contraction_pairs(
     axes_a = draw(st.permutations(list(range(nda))))[:ncon]
     for ax in range(nda):
         mc = minc if ax in axes_a else 1
-        ia.append(draw(index_specs(symm, min_charges=mc, max_size=max_size)))
+        ia.append(draw(index_specs(symm, min_charges=min(mc, max_charges),
+                                   max_size=max_size,
+                                   max_charges=max_charges)))
     axes_b = draw(st.permutations(list(range(ndb))))[:ncon]
     ib = [None] * ndb
     for xa, xb in zip(axes_a, axes_b):
         ib[xb] = conj_index_spec(ia[xa])
     for ax in range(ndb):
         if ib[ax] is None:
-            ib[ax] = draw(index_specs(symm, max_size=max_size))
+            ib[ax] = draw(index_specs(symm, max_size=max_size,
+                                      max_charges=max_charges))
     dyn = symm == "Z4" or draw(st.integers(0, 4)) == 0
     if dtype is None:
         dtype = draw(st.sampled_from(["float64", "float64", "complex128"]))
